@@ -197,6 +197,20 @@ def submit (c : Committee) (round : Nat) (p : Pool) (sigOk : Bool) (ec : EC) : P
   | some e => (p, some e)
   | none => add c p ec
 
+/-- What `commit.Verify` (signature, checked first) and `ValidateBasic` (failure code one of
+none / unknown / state-unavailable and the optional header fields consistent with it) say about the
+wire form of a commitment. The abstract `EC` keeps only "indicates a failure" (`Failure != FailureNone`,
+`IsIndicatingFailure`): every failure code is a failure for `verify` and for the vote. -/
+inductive WireCheck | ok | badSignature | malformed
+  deriving DecidableEq, Repr
+
+/-- `executorCommit` for one commitment as it arrives on the wire. -/
+def submitWire (c : Committee) (round : Nat) (p : Pool) (w : WireCheck) (ec : EC) : Pool × Option AddErr :=
+  match w with
+  | .badSignature => submit c round p false ec
+  | .malformed => (p, some .badCommitment)
+  | .ok => submit c round p true ec
+
 /-! ### processing (pool.go:310-452) -/
 
 inductive Res
